@@ -1745,14 +1745,19 @@ fn predict<I: SignedInteger>(coefficients: &[i64], qlp_shift: u32, channel: &mut
     for split in coefficients.len()..channel.len() {
         let (predicted, residuals) = channel.split_at_mut(split);
 
-        residuals[0] += I::from_i64(
-            predicted
-                .iter()
-                .rev()
-                .zip(coefficients)
-                .map(|(x, y)| (*x).into() * y)
-                .sum::<i64>()
-                >> qlp_shift,
+        // the sum of prediction and residual is only defined modulo
+        // the sample width (the prediction alone may exceed it),
+        // so it must not be range-checked
+        residuals[0] = I::from_i64(
+            Into::<i64>::into(residuals[0]).wrapping_add(
+                predicted
+                    .iter()
+                    .rev()
+                    .zip(coefficients)
+                    .map(|(x, y)| (*x).into() * y)
+                    .sum::<i64>()
+                    >> qlp_shift,
+            ),
         );
     }
 }
